@@ -78,16 +78,14 @@ theorem enter_norm (P : Prog) (ee : EE) : (f : Nat) → (st : Stmt) → (env : E
       · simp
       · split
         · simp
-        · split
+        · rename_i n _ _
+          have h := enterCalls_norm P ee f (List.replicate n.floor.toNat c) env false
+            (fun k => (v, k) :: env.binds) 0 (s.readLimit ee lim env.ctx).2.pend.length true (s.readLimit ee lim env.ctx).2
+          split
           · simp
-          · rename_i n _ _ _
-            have h := enterCalls_norm P ee f (List.replicate n.num.toNat c) env false
-              (fun k => (v, k) :: env.binds) 0 (s.readLimit ee lim env.ctx).2.pend.length true (s.readLimit ee lim env.ctx).2
-            split
-            · simp
-            · rename_i hne
-              simp only [Run.Norm]
-              exact ⟨h, by simpa using hne⟩
+          · rename_i hne
+            simp only [Run.Norm]
+            exact ⟨h, by simpa using hne⟩
 theorem enterBlk_norm (P : Prog) (ee : EE) : (f : Nat) → (b : List Stmt) → (env : Env) → (s : St) →
     (enterBlk P ee f b env s).1.Norm
   | 0, _, _, _ => by simp [enterBlk]
